@@ -169,8 +169,18 @@ class Adapter:
     def sanitize_batch(self, es, model):
         return es
 
+    def permuted_repeat(self, es):
+        """A weighted batch that lists one hyperedge twice in different spellings (node order):
+        whether the library's "no repeated edges" test looks at the spelling or at the
+        hyperedge is not specified, so such batches are excluded by construction."""
+        if not self.dup_check_in_weighted_batch:
+            return False
+        keys = [self.key_of(e) for e in es]
+        toks = [self.batch_dup_token(e) for e in es]
+        return len(set(keys)) != len(keys) and len(set(toks)) == len(toks)
+
     def ambiguous_weighted_batch(self, es):
-        return False
+        return self.permuted_repeat(es)
 
     # ---- construction / calls on the real object
     def new_model(self, weighted):
